@@ -553,6 +553,11 @@ func init() {
 				} else {
 					n.Ins[sl.k].Unconnected = true
 					pname = "in-port " + n.Ins[sl.k].Name
+					if c.Tape.Choose(simrt.StGen, 2, 0) == 1 {
+						// connected first, then disconnected again: still unconnected at Run
+						n.Ins[sl.k].Disconnected = true
+						pname += " (connected, then disconnected)"
+					}
 				}
 				c.Fault("unconnected-port")
 				c.Sample = "unconnected " + n.Name + " " + pname + ": " + sample(w)
@@ -733,8 +738,34 @@ func paramChainWF(c *Case) *WF {
 	return w
 }
 
+// paramFanInWF: a parameter port fed by an upstream process AND by FromStr at
+// the same time; RunTo on the consumer must still include the upstream process.
+func paramFanInWF(c *Case) *WF {
+	t := c.Tape
+	w := &WF{Name: "wf", Sources: map[string]string{}, MaxTasks: 1 + t.Choose(simrt.StGen, 3, 0), Bufsize: bufsizeOf(t)}
+	var up, own []string
+	for i := 0; i < 1+t.Choose(simrt.StGen, 3, 0); i++ {
+		up = append(up, fmt.Sprintf("u%d", i))
+	}
+	for i := 0; i < 1+t.Choose(simrt.StGen, 4, 0); i++ {
+		own = append(own, fmt.Sprintf("v%d", i))
+	}
+	s := addNode(w, Node{Name: "psx", Kind: KParamSrc, Vals: up})
+	tgt := addNode(w, Node{Name: "target", Kind: KProc, Cores: 1,
+		Params: []ParamSpec{{Name: "x", From: &Edge{s, "out"}, Vals: own}},
+		Outs:   []OutSpec{{Name: "o0", Pattern: "target.{p:x}.o0"}}})
+	oneToOne(w, "after", Edge{tgt, "o0"})
+	oneToOne(w, "side", Edge{srcNode(w, "srcs", 1, ""), "out"})
+	w.RunTo = []string{"target"}
+	w.RunToMode = t.Choose(simrt.StGen, 3, 0)
+	return w
+}
+
 func paramChainRunToCase(c *Case) Verdict {
 	w := paramChainWF(c)
+	if c.Tape.Choose(simrt.StGen, 3, 0) == 1 {
+		w = paramFanInWF(c)
+	}
 	c.Sample = sample(w)
 	ex := Eval(w)
 	inc := RunInc(w, c.Tape, nil, 0, IncOpts{KillAt: -1, Strategy: strategyOf(c.Tape), Trace: c.Trace})
